@@ -199,7 +199,10 @@ theorem TblFacts.len {o : Opts} {e : Ev} {f0 f2 : File} {t : Tbl} {s : Nat}
   · simp [resize_length]
 
 /-- the part of the invariant that does not involve the new row -/
-theorem body_tables {o : Opts} {e : Ev} {f : File} {b : Nat} (hi : Inv o f) :
+theorem body_tables {o : Opts} {e : Ev} {f : File} {b : Nat}
+    (hlenc : ∀ t, (f.rows t).length ≤ f.counter t)
+    (hlenc_eq : ∀ t, (t = .triggers ∧ o.write .triggers = true ∧ o.trigOnly .triggers = false) ∨
+                     f.counter t = (f.rows t).length) :
     (∀ t, ((body o e f b).rows t).length ≤ (body o e f b).counter t) ∧
     (∀ t, (t = .triggers ∧ o.write .triggers = true ∧ o.trigOnly .triggers = false) ∨
           (body o e f b).counter t = ((body o e f b).rows t).length) ∧
@@ -209,7 +212,7 @@ theorem body_tables {o : Opts} {e : Ev} {f : File} {b : Nat} (hi : Inv o f) :
   obtain ⟨_, ht⟩ := body_facts o e f b
   refine ⟨fun t => ?_, fun t => ?_, fun t => ?_, fun t => ?_, fun t => ?_⟩
   all_goals obtain ⟨s, tf, h1, h2, _⟩ := ht t
-  all_goals have hl := hi.lenc t
+  all_goals have hl := hlenc t
   · rw [tf.len, tf.counter]; split <;> split <;> omega
   · by_cases hs1 : s = 1
     · left
@@ -220,7 +223,7 @@ theorem body_tables {o : Opts} {e : Ev} {f : File} {b : Nat} (hi : Inv o f) :
       by_cases hr : records o e .triggers = true
       · exact hr
       · have := h2 (by simpa using hr); omega
-    · rcases hi.lenc_eq t with h | h
+    · rcases hlenc_eq t with h | h
       · exact Or.inl h
       · right; rw [tf.len, tf.counter]; split <;> split <;> omega
   · rw [tf.len]; split <;> omega
